@@ -10,7 +10,7 @@
 (*      bseq  : counter giving blocked clients their order,                *)
 (*      scans : <<conn, db, command, key>> -> open SCAN iteration (C19),   *)
 (*      disk  : NoDump | the dataset held by the last completed dump (C09),*)
-(*      aof   : NoAof | [dbs, db] = the dataset obtained by re-executing   *)
+(*      aof   : NoAof | [dbs, db, scripts] = the dataset obtained by re-executing *)
 (*              the append-only file so far on an empty server, and the    *)
 (*              database its replay connection has selected (C11),         *)
 (*      scripts : SHA1 digests (byte strings) of the scripts in the cache,  *)
@@ -573,16 +573,25 @@ ExpectedRegs(S) ==
 (* APPEND-ONLY FILE (C11).  `entries` = the command frames the server appended while it executed one request.
    Re-executing them, in order, on the replay state must reproduce the live dataset (values; TTL presence). *)
 ReplayConn == 0
-RECURSIVE AofApply(_, _, _, _)
-AofApply(Rs, entries, i, tm) == \* Rs: set of replay states [dbs, db]
+RECURSIVE AofApply(_, _, _, _, _)
+AofApply(Rs, entries, i, tm, req) == \* Rs: set of replay states [dbs, db, scripts]; req = [a, obs] the live request
   IF i > Len(entries) THEN Rs
   ELSE AofApply(
-         UNION {LET X == [InitS EXCEPT !.dbs = R.dbs, !.conns = (ReplayConn :> [NewConn(InitS) EXCEPT !.db = R.db])]
-                IN IF Len(entries[i]) = 0 \/ NameOf(entries[i]) \in {"EXEC", "MULTI", "BLPOP", "BRPOP", "SUBSCRIBE", "PSUBSCRIBE"}
+         UNION {LET X == [InitS EXCEPT !.dbs = R.dbs, !.scripts = R.scripts,
+                                       !.conns = (ReplayConn :> [NewConn(InitS) EXCEPT !.db = R.db])]
+                    e == entries[i]
+                    back(outs) == {[dbs |-> o.S.dbs, db |-> o.S.conns[ReplayConn].db, scripts |-> o.S.scripts] : o \in outs}
+                IN IF Len(e) = 0 \/ NameOf(e) \in {"EXEC", "MULTI", "BLPOP", "BRPOP", "SUBSCRIBE", "PSUBSCRIBE"}
                    THEN {R}      \* never meaningful in a redo log; the dataset comparison decides
-                   ELSE {[dbs |-> o.S.dbs, db |-> o.S.conns[ReplayConn].db] : o \in Exec1(X, ReplayConn, entries[i], tm, NoObs, TRUE)}
+                   ELSE IF NameOf(e) \in {"EVAL", "EVALSHA"}
+                   THEN (* a script logged verbatim: re-executing it runs the recorded program on the replay state
+                           (nothing observed resolves its random choices; EVALSHA needs the script in the replay cache) *)
+                        IF e = req.a /\ req.obs.t = "evalobs"
+                        THEN back(Exec1(X, ReplayConn, e, tm, [req.obs EXCEPT !.r = NoObs], FALSE))
+                        ELSE {}
+                   ELSE back(Exec1(X, ReplayConn, e, tm, NoObs, TRUE))
                 : R \in Rs},
-         entries, i + 1, tm)
+         entries, i + 1, tm, req)
 
 HasExp(e) == e.exp.k # "none"
 SameEntry(x, y) == x.t = y.t /\ x.v = y.v /\ HasExp(x) = HasExp(y)
@@ -598,23 +607,24 @@ AofUnfaithful ==
    aof_scripts |-> {"EVAL", "EVALSHA"}]
 
 (* S1 = live state after request `a` of connection c (state before: S0); returns set of [S, dv] *)
-AofStep(S0, S1, c, a, entries, tm) ==
+AofStep(S0, S1, c, a, entries, tm, obs) ==
   IF S0.aof = NoAof THEN {[S |-> S1, dv |-> {}]}
   ELSE LET name == IF Len(a) = 0 THEN "?" ELSE NameOf(a)
            c0db == S0.conns[c].db
            (* a redo log replays to ONE outcome: every way of re-executing the entries must give the live dataset
               (an entry with a random outcome, logged verbatim, does not) *)
-           all == AofApply({S0.aof}, entries, 1, tm)
+           req == [a |-> a, obs |-> obs]
+           all == AofApply({S0.aof}, entries, 1, tm, req)
            strict == IF all # {} /\ \A R \in all : SameData(R.dbs, S1.dbs) THEN all ELSE {}
            (* known finding: no SELECT is ever logged, so everything replays into the database the replay
               connection happens to be on; reading the entries in the database the live command ran in *)
            indb == IF "aof_no_select" \in Deviations /\ c0db # S0.aof.db
-                   THEN {R \in AofApply({[S0.aof EXCEPT !.db = c0db]}, entries, 1, tm) : SameData(R.dbs, S1.dbs)} ELSE {}
+                   THEN {R \in AofApply({[S0.aof EXCEPT !.db = c0db]}, entries, 1, tm, req) : SameData(R.dbs, S1.dbs)} ELSE {}
            queued == IF name = "EXEC" THEN {NameOf(S0.conns[c].queue[i]) : i \in 1..Len(S0.conns[c].queue)} ELSE {}
            resync == {dn \in DOMAIN AofUnfaithful : dn \in Deviations /\ ({name} \cup queued) \cap AofUnfaithful[dn] # {}}
        IN IF strict # {} THEN {[S |-> [S1 EXCEPT !.aof = R], dv |-> {}] : R \in strict}
           ELSE IF indb # {} THEN {[S |-> [S1 EXCEPT !.aof = [R EXCEPT !.db = S0.aof.db]], dv |-> {"aof_no_select"}] : R \in indb}
-          ELSE {[S |-> [S1 EXCEPT !.aof = [dbs |-> S1.dbs, db |-> S0.aof.db]], dv |-> {dn}] : dn \in resync}
+          ELSE {[S |-> [S1 EXCEPT !.aof = [dbs |-> S1.dbs, db |-> S0.aof.db, scripts |-> S0.aof.scripts]], dv |-> {dn}] : dn \in resync}
 
 (* a connection goes away: its transaction and watches vanish with it *)
 DropConn(S, c) == [S EXCEPT !.conns = [x \in (DOMAIN S.conns) \ {c} |-> S.conns[x]],
